@@ -61,6 +61,8 @@ func Load(path string) (*Vector, error) {
 		return nil, err
 	}
 	vec, next, Failed, Covered = v, 0, nil, nil
+	once = map[string]int{}
+	owners = map[any]int{}
 	return v, nil
 }
 
@@ -263,4 +265,18 @@ func Release[T any](b *T, who int) {
 		delete(owners, b)
 	}
 	mu.Unlock()
+}
+
+var once = map[string]int{}
+
+// PickOnce is Pick, but every call with the same name in one run returns the first call's value.
+func PickOnce(name string, lo, hi int) int {
+	mu.Lock()
+	defer mu.Unlock()
+	if v, ok := once[name]; ok {
+		return v
+	}
+	v := IntRange(name, lo, hi)
+	once[name] = v
+	return v
 }
